@@ -87,6 +87,7 @@ Srcs(stmts) ==
   IN SetToSeq(used \ outs)
 
 Graph(stmts) == [srcs |-> Srcs(stmts), pools |-> <<>>, stmts |-> stmts]
+St1(i, outs, ex, oo) == [Stmt0 EXCEPT !.id = i, !.outs = outs, !.ex = ex, !.oo = oo]
 
 \* all profile assignments for a shape
 GraphsOf(shape, profs) ==
@@ -193,6 +194,11 @@ FamFail(K, CH) ==
   UNION { UNION { UNION { {Scn(gr, h) : h \in Pick(CH, HistFail(gr, jk[1], jk[2]))} : jk \in {1, 2} \X {1, 2, 0} } :
                   gr \in GraphsS(sh, {"plain", "restat", "gcc"}, K) } :
           sh \in {"chain2", "chain3", "fanin", "fanout", "indep", "mixed", "diamond", "alias", "valid"} }
+  \cup
+  \* more failures in flight than the budget, with independent work still queued
+  UNION { UNION { {Scn(gr, <<BuildF(Roots(gr), jk[1], jk[2], FailRec(S, 1, FALSE))>>) : jk \in {<<2, 1>>, <<3, 1>>, <<3, 2>>, <<4, 2>>}, S \in {X \in SUBSET Cmds(gr) : Cardinality(X) \in {2, 3}}} :
+                  gr \in GraphsS(sh, {"plain"}, 1) } :
+          sh \in {"wide4", "widejoin", "widephony"} }
 
 (***************************************************************************)
 (* Random skeletons: statement i takes every available file (sources and    *)
@@ -302,7 +308,18 @@ HasDeps(gr) == \E i \in DOMAIN gr.stmts : gr.stmts[i].deps # ""
 \* changes that have a counterpart in the declared variant (a depfile can only be deleted in the discovered one)
 ChangesTw(gr) == {c \in ChangesET(gr) : c.op = "del" => c.f \in AllOutsG(gr)}
 ScnT(gr, hist, kind) == [srcs |-> gr.srcs, pools |-> gr.pools, stmts |-> gr.stmts, hist |-> hist, twin |-> kind]
+\* several recorded dependencies per statement: a plain header shared by two consumers in front of a header generated by
+\* statement 1 (with and without a manifest path to the generator), deps log and depfile
+MultiHdrGraphs ==
+  { Graph(<< St1(1, <<"o1">>, <<"s1">>, <<>>),
+             [St1(2, <<"o2">>, <<"s2">>, oo) EXCEPT !.deps = d, !.hdrs = hh],
+             [St1(3, <<"o3">>, <<"s2">>, oo) EXCEPT !.deps = d, !.hdrs = hh],
+             St1(4, <<"o4">>, <<"o2", "o3">>, <<>>) >>) :
+      d \in {"gcc", "depfile", "msvc"}, oo \in {<<>>, <<"o1">>}, hh \in {<<"h", "o1">>, <<"o1", "h">>, <<"h", "h2", "o1">>} }
 FamTwin(K, CH) ==
+  UNION { {ScnT(gr, <<Build(<<"o1">>, 1, 1), Build(Roots(gr), j, 1), [op |-> "edit", f |-> "h"], [op |-> e, f |-> "s1"], Build(Roots(gr), j, 1), Build(Roots(gr), j, 1)>>, "deps") :
+              j \in {1, 2, 3}, e \in {"edit", "touch"}} : gr \in MultiHdrGraphs }
+  \cup
   UNION { {ScnT(gr, <<Build(<<"o1">>, 1, 1), Build(Roots(gr), j, 1), cc[1], cc[2], Build(Roots(gr), j, 1), Build(Roots(gr), j, 1)>>, "deps") :
               j \in {1, 2}, cc \in Pick(CH, ChangesTw(gr) \X ChangesTw(gr))}
           \cup {ScnT(gr, <<Build(<<"o1">>, 1, 1), Build(Roots(gr), 2, 1), c, Build(<<t>>, 2, 1), Build(Roots(gr), 2, 1)>>, "deps") :
@@ -316,7 +333,6 @@ FamTwin(K, CH) ==
 (* outputs and restat.  A dyndep-discovered output is consumed only through *)
 (* dyndep-discovered inputs (DESIGN.md 6.C11).                              *)
 (***************************************************************************)
-St1(i, outs, ex, oo) == [Stmt0 EXCEPT !.id = i, !.outs = outs, !.ex = ex, !.oo = oo]
 DynGraphs == {
   \* dd is a source; discovered input is a source
   Graph(<< [St1(1, <<"o1">>, <<"s1">>, <<"dd">>) EXCEPT !.dd = "dd", !.ddi = <<"s2">>] >>),
@@ -354,11 +370,20 @@ DynGraphs == {
            St1(3, <<"o3">>, <<"o2">>, <<>>),
            [St1(4, <<"o4">>, <<"o3">>, <<"dd">>) EXCEPT !.dd = "dd", !.ddi = <<"x2">>] >>)
 }
+\* a statement bound to a dyndep file that is rebuilt stays clean, while its discovered input - clean itself - comes from a
+\* statement that must wait for a dirty order-only input; only that statement's output is asked for
+DynDeep ==
+  Graph(<< [St1(1, <<"dd">>, <<"s1">>, <<>>) EXCEPT !.mkdd = "dd"],
+           St1(2, <<"st">>, <<"s1">>, <<>>),
+           St1(3, <<"g">>, <<"s2">>, <<"st">>),
+           [St1(4, <<"out">>, <<"s2">>, <<"dd">>) EXCEPT !.dd = "dd", !.ddi = <<"g">>] >>)
 DynVariants(gr) == {gr} \cup {[gr EXCEPT !.stmts = [i \in DOMAIN gr.stmts |-> IF i = k /\ gr.stmts[i].mkdd = "" THEN [gr.stmts[i] EXCEPT !.restat = TRUE] ELSE gr.stmts[i]]] : k \in DOMAIN gr.stmts}
 FamDyn(K, CH) ==
   UNION { {ScnT(gr, <<Build(Roots(gr), j, 1), c, Build(Roots(gr), j, 1), Build(Roots(gr), j, 1)>>, "dyn") : j \in {1, 2, 3}, c \in Pick(CH, Changes(gr))}
           \cup {ScnT(gr, <<Build(<<t>>, 2, 1), c, Build(Roots(gr), 2, 1), Build(Roots(gr), 2, 1)>>, "dyn") : t \in Pick(2, AllOutsG(gr)), c \in Pick(CH, Changes(gr))} :
           gr \in UNION {DynVariants(x) : x \in DynGraphs} }
+  \cup {ScnT(DynDeep, <<Build(<<"out">>, j, 1), c, Build(<<"out">>, j, 1), Build(<<"out">>, j, 1), Build(Roots(DynDeep), 2, 1)>>, "dyn") :
+          j \in {1, 2}, c \in {x \in Changes(DynDeep) : x.op \in {"touch", "edit"}}}
 
 (***************************************************************************)
 (* C17: graphs with back edges.  Statement i may take any output (its own   *)
@@ -488,7 +513,7 @@ FamClean(K, CH) ==
 (* statements, failing commands, -j / -k, piped and terminal output; and a  *)
 (* rebuild in which restat prunes statements from the plan.                 *)
 (***************************************************************************)
-OutKinds == {<<>>, <<"mark", "nl">>, <<"mark">>, <<"mark", "nul", "ansi", "mark", "nl">>, <<"bracket", "nl", "mark", "nl">>, <<"mark", "cr", "failed", "nl", "long", "nl">>}
+OutKinds == {<<>>, <<"mark", "nl">>, <<"mark">>, <<"mark", "nul", "ansi", "mark", "nl">>, <<"ansi", "mark", "nul", "nl", "mark", "nul">>, <<"bracket", "nl", "mark", "nl">>, <<"mark", "cr", "failed", "nl", "long", "nl">>}
 WithOut(gr, oa, pa) == [gr EXCEPT !.stmts = [i \in DOMAIN gr.stmts |-> IF gr.stmts[i].phony THEN gr.stmts[i] ELSE [outp |-> oa[i]] @@ [gr.stmts[i] EXCEPT !.pool = pa[i]]]]
 StatusGraphs(K) ==
   UNION { UNION { {WithOut(gr, oa, pa) : oa \in RandomSubset(2, [1..Len(gr.stmts) -> OutKinds]), pa \in RandomSubset(2, [1..Len(gr.stmts) -> {"", "", "console"}])} :
